@@ -316,6 +316,14 @@ def target_texts():
         out.append("proc P\n" + s + "\nendproc\n")
         out.append("func F(a) return int4\n " + s)
         out.append("proc P\n if a\n  " + s + "\n endif\n y = 2\nendproc\nX : int4\n")
+    # multi-line constructs that START to the right of the column where they END (a header typed far to the right, its end
+    # keyword at the margin): start <= end must be decided on (line, column) pairs, not column by column
+    for ind in (1, 9, 24):
+        sp = " " * ind
+        out.append("class aC\n" + sp + "proc P(A : int4)\n x = 1\nendproc\n" + sp + "func F return int4\n return 1\nend\n")
+        out.append(sp + "type tR : record\n f : int4\nendrecord\n" + sp + "type tE : (cA,\ncB)\n")
+        out.append("proc P\n" + sp + "if a\n x = 1\nendif\n" + sp + "x = f(1,\n2)\n" + sp + "switch x\nwhen 1\nendwhen\nendswitch\nendproc\n")
+        out.append(sp + "class aC (aB)\n" + sp + "const cX = 'a\nb'\n" + sp + "F : refto aB\n")
     return out
 
 
@@ -416,7 +424,7 @@ def _ws_files(rng):
         refs += ["self.Shared", "self.Common", "x = Fld0", "Run0()"]
         for m in meths:
             isproc = rng.random() < 0.7
-            L.append(("proc %s" if isproc else "func %s return int4") % m)
+            L.append(rng.choice(["", "", "            "]) + ("proc %s" if isproc else "func %s return int4") % m)
             if m == meths[0]:
                 L.append("  var v : %s" % names[rng.randrange(n)])
                 L += ["  " + r for r in rng.sample(refs, min(len(refs), rng.randint(2, 6)))]
